@@ -123,6 +123,46 @@ def cmdParams (sw : List (Switch σ)) (keys : Tok → Option (List (List Tok))) 
       | [] => { o with user := u }
       | _ :: rest' => cmdParams sw keys rest' { o with user := u }
 
+/-! ### key files as text files
+
+"This file may contain several lines", options "written in the same way as in the command line": the parameters of a line are
+its blank-separated words; the lines are the lines of a text file - each ended by a line feed (a carriage return directly in front
+of it belongs to the line end), the last one possibly without any line end. -/
+
+theorem length_dropWhile_le (p : Char → Bool) : ∀ l : Tok, (l.dropWhile p).length ≤ l.length
+  | [] => by simp
+  | c :: r => by
+    have := length_dropWhile_le p r
+    rw [List.dropWhile_cons]
+    split <;> simp <;> omega
+
+/-- the blank-separated words of a line -/
+def words : Tok → List Tok
+  | [] => []
+  | c :: r =>
+    if c == ' ' then words r
+    else (c :: r.takeWhile (· != ' ')) :: words (r.dropWhile (· != ' '))
+termination_by l => l.length
+decreasing_by
+  · simp
+  · have := length_dropWhile_le (· != ' ') r
+    simp; omega
+
+/-- the lines of a text: a line feed ends a line; what follows the last line feed is a line only if it is not empty -/
+def textLines : Tok → List Tok
+  | [] => []
+  | c :: r =>
+    if c == '\n' then [] :: textLines r
+    else match textLines r with
+      | [] => [[c]]
+      | l :: ls => (c :: l) :: ls
+
+/-- a carriage return at the end of a line is part of the line end -/
+def dropCR (l : Tok) : Tok := if l.getLast? == some '\r' then l.dropLast else l
+
+/-- the parameter lists of a key file given by its content -/
+def keyFileParams (content : Tok) : List (List Tok) := ((textLines content).map dropCR).map words
+
 /-- the executable statement used as oracle (C): a log of handler calls as option state -/
 structure Call where
   name : Tok
